@@ -45,7 +45,8 @@ def sortBy {α} (cmp : α → α → Int) (l : List α) : List α := l.foldl (fu
 
 /-! ## `augment` -/
 
-def primeSuffixes : List String := ["′", "″", "‴", "⁗"]
+/-- regenerated from parser/lr/grammar.go by `bin/pre-C11` -/
+def primeSuffixes : List String := AlgoVerif.Generated.C11.lr_primeSuffixes
 
 /-- `AddNewNonTerminal(G.Start, primeSuffixes...)` (names that already end in a prime are not modelled) -/
 def augStart (g : SGrammar) : Option String :=
@@ -208,24 +209,27 @@ def cmpItemLists (start : String) : List Item → List Item → Int
 
 /-! ## CLOSURE -/
 
+/-- FIRST(βa).Terminals for the suffix β after the non-terminal at the dot of `i` and its lookahead `a` -/
+def lookaheadsFor (nl : List String) (fe : Env) (i : Item) (a : String) : List String :=
+  let β := i.prod.body.drop (i.dot + 1)
+  if β.all (symNullable nl) then unionNew (firstOfStr nl fe β) [a] else firstOfStr nl fe β
+
+/-- the items `B → •γ` (`[B → •γ, b]`, `b ∈ FIRST(βa)`) that item `i = A → α•Bβ` (`[…, a]`) calls for -/
+def closureCands (g : SGrammar) (nl : List String) (fe : Env) (i : Item) : List Item :=
+  match i.dotSym with
+  | some (.nonterm B) =>
+    (prodsOf g B).flatMap fun p =>
+      match i.la with
+      | none => [{ prod := p, dot := 0, la := none }]
+      | some a => (lookaheadsFor nl fe i a).map fun b => { prod := p, dot := 0, la := some b }
+  | _ => []
+
+/-- "if `j` is not in `J`: `newItems = append(newItems, j)`" (and `J.Add` drops duplicates) -/
+def addFresh (J acc : List Item) (j : Item) : List Item := if j ∈ J ∨ j ∈ acc then acc else acc ++ [j]
+
 /-- the items `calculator0/1.CLOSURE` finds in one pass over `J` (those not yet in `J`) -/
 def closureNew (g : SGrammar) (nl : List String) (fe : Env) (J : List Item) : List Item :=
-  J.foldl (fun acc i =>
-    match i.dotSym with
-    | some (.nonterm B) =>
-      (prodsOf g B).foldl (fun acc p =>
-        match i.la with
-        | none =>
-          let j : Item := { prod := p, dot := 0, la := none }
-          if j ∈ J ∨ j ∈ acc then acc else acc ++ [j]
-        | some a =>
-          -- FIRST(βa).Terminals, β = the suffix after B
-          let β := i.prod.body.drop (i.dot + 1)
-          let bs := if β.all (symNullable nl) then unionNew (firstOfStr nl fe β) [a] else firstOfStr nl fe β
-          bs.foldl (fun acc b =>
-            let j : Item := { prod := p, dot := 0, la := some b }
-            if j ∈ J ∨ j ∈ acc then acc else acc ++ [j]) acc) acc
-    | _ => acc) []
+  (J.flatMap (closureCands g nl fe)).foldl (addFresh J) []
 
 def closure (g : SGrammar) (nl : List String) (fe : Env) : Nat → List Item → Outcome (List Item)
   | 0, _ => .diverge
@@ -277,9 +281,9 @@ def canonicalLoop (A : Auto) : Nat → List (List Item) → Outcome (List (List 
     let new ← canonicalNew A C
     if new.isEmpty then pure C else canonicalLoop A fuel (C ++ new)
 
-def Auto.canonical (A : Auto) : Outcome (List (List Item)) := do
-  let I0 ← if A.kernel then pure [A.initialItem] else A.closure [A.initialItem]
-  canonicalLoop A A.fuel [I0]
+def Auto.canonical (A : Auto) : Outcome (List (List Item)) :=
+  (if A.kernel then Outcome.ok [A.initialItem] else A.closure [A.initialItem]) >>= fun I0 =>
+    canonicalLoop A A.fuel [I0]
 
 /-! ## `BuildStateMap` -/
 
@@ -330,20 +334,23 @@ def Table.setGoto (T : Table) (s : Int) (A : String) (next : Int) : Table :=
 def Table.setCell (T : Table) (s : Int) (a : String) (acts : List Action) : Table :=
   { T with actions := T.actions.map fun e => if e.1 == (s, a) then (e.1, acts) else e }
 
-/-- the actions one item contributes to row `i` (steps 2a–2c of the three constructions);
-`shiftTo a` is the state number for the shift on terminal `a`, `reduceOn` the lookaheads of a reduction -/
-def itemActions (start : String) (i : Int) (item : Item) (shiftTo : String → Outcome Int)
-    (reduceOn : Item → List String) (T : Table) : Outcome Table := do
-  let T ← match item.dotSym with
-    | some (.term a) => do
-      let j ← shiftTo a
-      pure (T.addAction i a (.shift j))
-    | _ => pure T
+/-- step 2a: a shift for a terminal after the dot; `shiftTo a` is the state number of the target -/
+def itemShift (i : Int) (item : Item) (shiftTo : String → Outcome Int) (T : Table) : Outcome Table :=
+  match item.dotSym with
+  | some (.term a) => shiftTo a >>= fun j => pure (T.addAction i a (.shift j))
+  | _ => pure T
+
+/-- steps 2b, 2c: reduce actions of a complete item on the lookaheads `reduceOn item`; accept for `S′ → S•` -/
+def itemReduce (start : String) (i : Int) (item : Item) (reduceOn : Item → List String) (T : Table) : Table :=
   let T := if item.isComplete && !item.isFinal start then
       (reduceOn item).foldl (fun T a => T.addAction i a (.reduce item.prod)) T
     else T
-  let T := if item.isFinal start then T.addAction i endmarker .accept else T
-  pure T
+  if item.isFinal start then T.addAction i endmarker .accept else T
+
+/-- the actions one item contributes to row `i` (steps 2a–2c of the three constructions) -/
+def itemActions (start : String) (i : Int) (item : Item) (shiftTo : String → Outcome Int)
+    (reduceOn : Item → List String) (T : Table) : Outcome Table :=
+  itemShift i item shiftTo T >>= fun T => pure (itemReduce start i item reduceOn T)
 
 /-! ## SLR(1) and canonical LR(1) -/
 
@@ -509,21 +516,26 @@ inductive Verdict where
   | badPrecedences          -- `precedences.Verify()` failed
   deriving DecidableEq, Repr
 
-/-- `ResolveConflicts`; `order s a acts` is the order in which the set iteration of `resolveConflict` delivers
-the actions of cell `[s,a]` (a permutation of `acts`).  Cells are visited in the order they were created, which
-differs from the Go loop (`States × Terminals`) but no cell influences another. -/
+/-- the loop of `ResolveConflicts` over the cells; `order s a acts` is the order in which the set iteration of
+`resolveConflict` delivers the actions of cell `[s,a]` (a permutation of `acts`) -/
+def resolveCells (ls : List Level) (order : Int → String → List Action → List Action) :
+    List ((Int × String) × List Action) → Table × Verdict → Outcome (Table × Verdict)
+  | [], acc => .ok acc
+  | e :: es, acc =>
+    if e.2.length ≤ 1 then resolveCells ls order es acc
+    else
+      match resolveConflict ls e.1.2 (order e.1.1 e.1.2 e.2) with
+      | .ok (some act) => resolveCells ls order es (acc.1.setCell e.1.1 e.1.2 [act], acc.2)
+      | .ok none => resolveCells ls order es (acc.1, Verdict.conflict)
+      | .panic => .panic
+      | .diverge => .diverge
+
+/-- `ResolveConflicts`.  Cells are visited in the order they were created, which differs from the Go loop
+(`States × Terminals`), but no cell influences another. -/
 def resolveAll (ls : List Level) (order : Int → String → List Action → List Action) (T : Table) :
     Outcome (Table × Verdict) :=
   if !levelsOK ls then .ok (T, .badPrecedences)
-  else
-    T.actions.foldlM (fun (acc : Table × Verdict) e =>
-      if e.2.length ≤ 1 then pure acc
-      else
-        match resolveConflict ls e.1.2 (order e.1.1 e.1.2 e.2) with
-        | .ok (some act) => pure (acc.1.setCell e.1.1 e.1.2 [act], acc.2)
-        | .ok none => pure (acc.1, Verdict.conflict)
-        | .panic => Outcome.panic
-        | .diverge => Outcome.diverge) (T, Verdict.table)
+  else resolveCells ls order T.actions (T, Verdict.table)
 
 /-- default fuel for the "until nothing new" loops: more than the number of LR(1) items of the grammar
 (so each loop, which adds at least one new item / item set / lookahead per round, cannot use it up for a
